@@ -60,8 +60,8 @@ type solveCfg struct {
 
 func quickCfg(g *vlib.G) solveCfg {
 	return solveCfg{
-		nrhs:  vlib.Pick(g, []int{1, 2, 3, 4}, []int{1, 2, 3, 4, 5, 6}),
-		breps: []string{"dense", "view", "trans", "user"},
+		nrhs:  vlib.Pick(g, []int{1, 2, 3, 4, 5, 6}, []int{1, 2, 3, 4, 5, 6, 7}),
+		breps: []string{"dense", "view", "trans", "transview", "user"},
 		vreps: vecReps,
 		dsts:  dstKinds,
 	}
